@@ -400,3 +400,14 @@ func (e *Effects) FnMust(fn *ssa.Function, label string) bool {
 	e.compute()
 	return e.must[fn][label]
 }
+
+// gtRel: fact "X > Y".
+func gtRel(op token.Token) (bool, bool) {
+	switch op {
+	case token.GTR:
+		return true, true
+	case token.LEQ:
+		return false, true
+	}
+	return false, false
+}
